@@ -756,7 +756,7 @@ attrsLoop:
 						}
 
 						if elementName == "a" && htmlAttr.Key == "target" {
-							if htmlAttr.Val == "_blank" {
+							if isBlankTarget(htmlAttr.Val) {
 								targetBlankFound = true
 							}
 							if addTargetBlank && !targetBlankFound {
@@ -1205,6 +1205,29 @@ func solidusEndsUnquotedValue(raw []byte) bool {
 		}
 	}
 	return false
+}
+
+// isBlankTarget reports whether a browser opens a new browsing context for
+// the target: the keyword _blank is ASCII case-insensitive, and a target that
+// holds a tab or newline together with '<' is replaced by _blank.
+func isBlankTarget(target string) bool {
+	if len(target) == len("_blank") {
+		blank := true
+		for i := 0; i < len(target); i++ {
+			c := target[i]
+			if 'A' <= c && c <= 'Z' {
+				c += 'a' - 'A'
+			}
+			if c != "_blank"[i] {
+				blank = false
+				break
+			}
+		}
+		if blank {
+			return true
+		}
+	}
+	return strings.ContainsAny(target, "\t\n\r") && strings.Contains(target, "<")
 }
 
 // keptPrefix marks the entries of the stack of closing tags to skip that belong
